@@ -187,7 +187,10 @@ TRANSPARENT = re.compile(
     r"branch|as_str|as_bytes|as_slice|to_owned|to_string|to_vec|as_path|as_deref|as_deref_mut|into_inner|"
     r"get_mut|lock|read|write|try_into|unwrap_unchecked|into_iter|iter|by_ref|as_ptr|as_mut_ptr|cast|"
     r"to_path_buf|into_boxed_slice|new_unchecked|get_unchecked|from_mut|from_ref|index|index_mut|"
-    r"copied|cloned|unwrap_or|map_err|join|ok_or|ok_or_else|as_mut_slice|into_string|to_le_bytes|to_be_bytes)$")
+    r"copied|cloned|unwrap_or|map_err|join|next|next_back|peek|enumerate|rev|map|filter|ok_or|ok_or_else|as_mut_slice|into_string|to_le_bytes|to_be_bytes)$")
+
+
+MUTATORS = re.compile(r"(Vec|VecDeque|HashSet|BTreeSet|HashMap|BTreeMap|BinaryHeap)::(push|push_back|push_front|insert|extend|append|extend_from_slice)$")
 
 
 class Defs:
@@ -204,6 +207,26 @@ class Defs:
             t = b.term
             if t["t"] == "call":
                 d[t["dest"]["l"]].append((term_pt(fn, b.idx), "call", t))
+        # container stores: `v.push(x)` / `set.insert(x)` define (the contents of) v
+        for b in fn.blocks:
+            t = b.term
+            if t["t"] != "call" or len(t["args"]) < 2:
+                continue
+            ck = callee_skey(t) or ""
+            if not MUTATORS.search(ck):
+                continue
+            a0 = t["args"][0]
+            if a0.get("k") not in ("copy", "move"):
+                continue
+            base = None
+            l0 = a0["pl"]["l"]
+            for _pt, kind, st in d.get(l0, ()):
+                if kind == "assign" and st["rv"]["r"] == "ref" and not _field_elems(st["rv"]["pl"]):
+                    base = st["rv"]["pl"]["l"]
+            if base is None:
+                continue
+            for x in t["args"][1:]:
+                d[base].append((term_pt(fn, b.idx), "store", x))
         self.d = d
 
     def of(self, local):
@@ -341,6 +364,8 @@ def _origins_place(fn, l, fes, depth, seen, tc):
                 out += _origins_place(fn, pl["l"], _field_elems(pl), depth + 1, seen, tc)
             else:
                 out.append({"k": "other", "pt": pt, "st": st})
+        elif kind == "store":
+            out += _origins_op(fn, payload, [], depth, seen, tc)
         else:
             t = payload
             lf = _names(_field_elems(t["dest"]))
